@@ -238,6 +238,23 @@ func (ex *Exec) specIdent(env *Env, name string) *Value {
 	if v, ok := env.vars[name]; ok {
 		return v
 	}
+	if strings.HasPrefix(name, "$idx") && len(name) > 4 && env.fr != nil {
+		// $idxK: hidden index of the range loop with ordinal K (after the loop has run to its
+		// end it equals the length of the range)
+		var k int
+		if _, err := fmt.Sscanf(name[4:], "%d", &k); err == nil {
+			for _, li := range env.fr.loops {
+				if li.ordinal == k {
+					if a := rangeIndexAlloc(li); a != nil {
+						if cell, ok := env.localsState().locals[a]; ok {
+							return cell
+						}
+					}
+				}
+			}
+		}
+		specFail("%s: no initialised range index for that loop here", name)
+	}
 	if name == "$idx" {
 		// index of the last completed iteration of the enclosing range loop (-1 before the first)
 		if env.loopIdx == nil {
